@@ -39,6 +39,8 @@ import json,sys,os
 name,suite,w,wo,res=sys.argv[1:6]
 p=f"/verif/seeded/{name}/meta.json"
 m=json.load(open(p)) if os.path.exists(p) else {}
+info=json.load(open("/verif/seeded/INFO.json")).get(name,{})
+m.update(info)
 m.update({"name":name,"suite_with_change":suite,"demo_with_change":w,"demo_without_change":wo,
           "checks_run":{r.split(':')[0]:r.split(':')[1] for r in res.split()},
           "how":"fresh worktree of /repo HEAD; git apply patch.diff; cargo test --workspace --offline; demo as epserde/tests/seed_demo.rs with and without the patch; VERIF_REPO=<worktree> bin/check <ID> --tier quick"})
